@@ -206,7 +206,13 @@ func (r *Report) Finish(verifDir string, findings []Finding) int {
 	if len(samples) == 0 {
 		samples = append(samples, "no obligations")
 	}
+	// every obligation of this run, one line each: rule | construct | verdict | position
+	var all []string
+	for _, o := range r.Obls {
+		all = append(all, o.Rule+" | "+o.Construct+" | "+string(o.Verdict)+" | "+o.Pos)
+	}
 	cov := map[string]any{
+		"obligation_list":     all,
 		"explanation":         r.Explanation,
 		"obligations":         len(r.Obls),
 		"discharged":          discharged,
